@@ -95,7 +95,13 @@ def reexporters(proj: dict, values: Dict[Tuple[str, Tuple[str, ...], str], Any],
 def oracle_query(proj: dict, values: Dict[Any, Any], q: List[Any], res: Any) -> Optional[Tuple[str, str]]:
     """q = [m, qual, dotted, cpython_value]; res = pydoctor's [ctx, expandName, [fullName, id, kind] | None].
     Returns (why, text) when the property is violated on this name."""
-    m, qual, dotted, v = q
+    m, qual, dotted, v = q[:4]
+    if v is None:
+        # Python does not bind this name in this namespace at all: pydoctor may know it, but must not resolve it
+        if res is not None and res[2] is not None:
+            return ('invented-name', 'in %s the name %r is NOT bound at run time but pydoctor resolves it to %s (defined as %s)'
+                    % ('.'.join([m] + qual), dotted, res[2][0], res[2][1]))
+        return None
     want = cp_ident(v)
     if res is None or res[0] is None:
         return ('context-missing', 'pydoctor has no object for the namespace %s' % '.'.join([m] + qual))
@@ -176,6 +182,29 @@ def corpus() -> List[dict]:
         M('b', [['class', 'Base', None, [['def', 'inh'], ['class', 'Inner', None, []]]]]),
         M('c', [['from', 0, 'b', [['Base', None]]], ['class', 'Sub', 'Base', [['def', 'own']]],
                 ['class', 'SubSub', 'Sub', []], ['alias', 'viaSub', 'SubSub.inh']]),
+    ], 'order': None})
+    # class-body import / alias of a name that the module binds to ANOTHER object (alias RHS must be expanded in the class)
+    out.append({'tag': 'class-rebinds-module-name', 'modules': [
+        M('c04defs', [], True), M('c04defs.m0', [['class', 'Alpha', None, [['def', 'am']]]]),
+        M('c04defs.m1', [['class', 'Beta', None, [['def', 'bm']]]]),
+        M('c04app', [], True),
+        M('c04app.m2', [['from', 0, 'c04defs.m0', [['Alpha', 'T']]], ['import', 'c04defs.m0', 'md'],
+                        ['class', 'K', None, [['from', 0, 'c04defs.m1', [['Beta', 'T']]], ['alias', 'U', 'T'], ['alias', 'Um', 'T.bm'],
+                                              ['import', 'c04defs.m1', 'md'], ['alias', 'W', 'md.Beta'],
+                                              ['class', 'Inner', None, []], ['alias', 'V', 'Inner']]],
+                        ['class', 'K2', None, [['alias', 'T', 'md.Alpha'], ['alias', 'U2', 'T']]],
+                        ['alias', 'modU', 'T']]),
+    ], 'order': None})
+    # star import from a module WITHOUT __all__ that binds underscore names through imports / aliases:
+    # `other` must not get them; `main` keeps its own earlier binding of the same private name
+    out.append({'tag': 'star-private-imported-names', 'modules': [
+        M('c04lib', [], True), M('c04lib.defs', [['class', 'Alpha', None, []], ['class', 'Beta', None, []], ['def', '_hidden']]),
+        M('c04lib.helpers', [['from', 0, 'c04lib.defs', [['Alpha', '_impl'], ['Beta', 'pub']]], ['import', 'c04lib.defs', '_dm'],
+                             ['alias', '_al', 'pub'], ['alias', 'pal', '_impl'], ['def', '_own'], ['def', 'shown']]),
+        M('other', [['star', 0, 'c04lib.helpers']]),
+        M('main', [['from', 0, 'c04lib.defs', [['Beta', '_impl']]], ['from', 0, 'c04lib.defs', [['Alpha', '_dm']]],
+                   ['star', 0, 'c04lib.helpers'], ['class', 'Sub', '_impl', []], ['alias', 'chk', '_dm']]),
+        M('c04lib.rel', [['star', 1, 'helpers'], ['class', 'R', 'pub', []]]),
     ], 'order': None})
     # genuine defects kept as corpus cases (known findings)
     out.append({'tag': 'nested-class-capture', 'modules': [
@@ -301,7 +330,7 @@ class Check(PropertyCheck):
         for i in range(n):
             rng = random.Random('%d/%d/%d' % (self.seed, seed_salt, i))
             size = 'small' if i % 5 == 0 else 'normal'
-            g = G.Gen(rng, size=size, simple=(i % 5 == 3))
+            g = G.Gen(rng, size=size, simple=(i % 5 == 3), shadow=0.35)
             p = g.project()
             p['tag'] = 'gen-%d-%d' % (seed_salt, i)
             p['simple'] = (i % 5 == 3)
@@ -341,6 +370,12 @@ class Check(PropertyCheck):
         pd_in = [{'files': p['files'], 'roots': G.roots_of(p), 'order': p.get('order'),
                   'queries': [['.'.join([q[0]] + q[1]), q[2]] for q in p['queries']]} for p in live]
         pd_res = lib.run_impl_worker('c04_names.py', pd_in, jobs=16)
+        # 2b. names pydoctor knows in a namespace that CPython does NOT bind there: added to the query list (value None,
+        #     marker 'unbound') so that the oracle, the model and the replay see them too
+        for p, pr in zip(live, pd_res):
+            if p.get('no_cpython') or 'error' in pr:
+                continue
+            add_unbound_queries(p, pr)
         # 3. model + spec
         wires = []
         atoms = []
@@ -369,6 +404,14 @@ class Check(PropertyCheck):
             # oracle
             for q, r in zip(p['queries'], pr['results']):
                 if q[3] is None:
+                    if len(q) > 4 and q[4] == 'unbound':
+                        self.count('unbound_names_checked')
+                        o = oracle_query(p, values, q, r)
+                        if o is not None:
+                            self.count('oracle_' + o[0])
+                            if len([v for v in out if v.kind == 'oracle']) < 400:
+                                out.append(Violation('oracle', o[1], case=dict(case, why=o[0], query=q, observed=r, tag=p.get('tag'),
+                                                                              reexported_by=[]), expected=None, observed=r))
                     continue
                 self.count('parts_%d' % (q[2].count('.') + 1))
                 self.count('resolved' if r[2] is not None else 'unresolved')
@@ -640,7 +683,7 @@ class Check(PropertyCheck):
             return 1
         queries = cp['queries']
         if case.get('query'):
-            queries = [q for q in queries if q[:3] == case['query'][:3]] or [case['query']]
+            queries = [q for q in queries if q[:3] == case['query'][:3]] or [case['query'][:3] + [None, 'unbound']]
         pd = lib.run_impl_worker('c04_names.py', [{'files': p['files'], 'roots': G.roots_of(p), 'order': p.get('order'),
                                                    'queries': [['.'.join([q[0]] + q[1]), q[2]] for q in queries]}])[0]
         if 'error' in pd:
@@ -652,7 +695,7 @@ class Check(PropertyCheck):
         for q, r in zip(queries, pd['results']):
             o = oracle_query(p, values, q, r)
             print('namespace %-20s name %-24s CPython: %-28s pydoctor: expandName=%r resolveName=%r'
-                  % ('.'.join([q[0]] + q[1]), q[2], cp_ident(q[3]), r[1], r[2][0] if r[2] else None))
+                  % ('.'.join([q[0]] + q[1]), q[2], cp_ident(q[3]) or '(not bound)', r[1], r[2][0] if r[2] else None))
             if o is not None:
                 bad += 1
                 print('   PROPERTY VIOLATED (%s): %s' % o)
@@ -665,6 +708,25 @@ def self_model(chk: Check, wire: str) -> str:
     if b is None:
         raise RuntimeError(out)
     return lib.run_model(b, [wire])[0]
+
+
+def split_scope(p: dict, ctx_id: str) -> Tuple[str, List[str]]:
+    mods = set(m['name'] for m in p['modules'])
+    parts = ctx_id.split('.')
+    for i in range(len(parts), 0, -1):
+        if '.'.join(parts[:i]) in mods:
+            return '.'.join(parts[:i]), parts[i:]
+    return ctx_id, []
+
+
+def add_unbound_queries(p: dict, pr: dict) -> None:
+    bound = set((q[0], tuple(q[1]), q[2]) for q in p['queries'] if q[3] is not None and '.' not in q[2])
+    for ctx_id, name, ctx_full, ex, res in pr.get('own', []):
+        m, qual = split_scope(p, ctx_id)
+        if (m, tuple(qual), name) in bound:
+            continue
+        p['queries'].append([m, qual, name, None, 'unbound'])
+        pr['results'].append([ctx_full, ex, res])
 
 
 def is_simple(p: dict) -> bool:
